@@ -24,7 +24,15 @@ from nvlib.check import Prop
 from nvlib.extract import TieBroken
 
 MODS = ["-", "static", "private", "protected", "public"]
-VH_T0 = 1000000000       # harness/common/vh.h: the virtual clock starts here
+def _vh_t0():
+    """the start of the harness' virtual clock, read from harness/common/vh.h (not a copy)"""
+    m = re.search(r"#define\s+VH_T0\s+(\d+)", open(os.path.join(E.VERIF, "harness/common/vh.h")).read())
+    if not m:
+        raise TieBroken("harness:VH_T0", "VH_T0 not found in harness/common/vh.h")
+    return int(m.group(1))
+
+
+VH_T0 = _vh_t0()
 
 
 # --------------------------------------------------------------------------------------------
@@ -143,11 +151,28 @@ def lpc_source(g, P, base, savebin=False):
                     calls.append('"/c07/caller"->do_eval((: %s :));' % c[1:])
                 elif c[0] == "H":       # a functional whose body makes the local call
                     calls.append("evaluate((: %s(%s) :));" % (c[1:], largs(c[1:])))
+                elif c[0] == "O":       # `(: f() :)` is made and STORED in the other object
+                    calls.append('"/c07/caller"->stash((: %s(%s) :));' % (c[1:], largs(c[1:])))
+                elif c == "N":          # the functional this object stored (if any) is fetched back and evaluated HERE
+                    calls.append('evaluate("/c07/caller"->get_stash());')
                 elif c[0] == "I":       # ... evaluated by the other object
                     calls.append('"/c07/caller"->do_eval((: %s(%s) :));' % (c[1:], largs(c[1:])))
                 else:
                     par, fn = c[1:].split(".")
-                    calls.append("%s::%s(%s);" % ("" if par == "*" else par, fn, largs(fn)))
+                    sup = "%s::%s(%s)" % ("" if par == "*" else par, fn, largs(fn))
+                    if c[0] == "J":     # the `::` call inside a functional / an anonymous function, evaluated here
+                        if (fnum(fn) + fnum(it[2])) % 2:
+                            calls.append("evaluate(function () { return %s; });" % sup)
+                        else:
+                            calls.append("evaluate((: %s :));" % sup)
+                    elif c[0] == "K":   # ... evaluated by another object: only the pointer knows the creator's offsets;
+                        # directly, or as the callback of an efun (map_array / filter_array) running there
+                        how = ("do_eval", "do_map", "do_filter")[(fnum(fn) + fnum(it[2]) + fnum(P.name)) % 3]
+                        calls.append('"/c07/caller"->%s((: %s :));' % (how, sup))
+                    elif c[0] == "M":   # ... stored; some other function of this object evaluates it later (N)
+                        calls.append('"/c07/caller"->stash((: %s :));' % sup)
+                    else:
+                        calls.append("%s;" % sup)
             code = (fnum(P.name) + 1) * 100 + fnum(it[2])
             wset = "w = %d; " % (code + 5000) if has_w else ""
             alog = ('VL("args" + %s); ' % " + ".join('" " + a%d' % i for i in range(arity(it[2])))) if arity(it[2]) else ""
@@ -427,7 +452,7 @@ def gen_compress_consts(bdir):
 class C07(Prop):
     id = "C07"
     title = "calls reach the right function and respect visibility, whatever came before"
-    lean_modules = ["NV.C07.Props", "NV.C07.Witness", "NV.C07.OracleTests", "NV.C07.LemmasCompress", "NV.C07.Tie", "NV.C07.LemmasBinary", "NV.C07.LemmasBuild3", "NV.C07.LemmasBinary2", "NV.C07.LemmasArgs"]
+    lean_modules = ["NV.C07.Props", "NV.C07.Witness", "NV.C07.OracleTests", "NV.C07.LemmasCompress", "NV.C07.Tie", "NV.C07.LemmasBinary", "NV.C07.LemmasBuild3", "NV.C07.LemmasBinary2", "NV.C07.LemmasArgs", "NV.C07.LemmasFrames", "NV.C07.LemmasReuse"]
     theorems = ["NV.C07.visibility_table", "NV.C07.visibility_any_flags", "NV.C07.visibility_lifted",
                 "NV.C07.driver_origins_never_refused", "NV.C07.bsearch_correct", "NV.C07.find_function_correct",
                 "NV.C07.find_offsets_are_path_sums", "NV.C07.cache_transparent_step", "NV.C07.cache_transparent",
@@ -438,12 +463,15 @@ class C07(Prop):
                 "NV.C07.slotOf_formula", "NV.C07.cacheMask_is_size_minus_one", "NV.C07.slotOf_lt", "NV.C07.find_masks_are_source",
                 "NV.C07.name_masks_are_source", "NV.C07.cmp_marker_is_byte_max",
                 "NV.C07.permute_slot_entry", "NV.C07.permute_ft_mem", "NV.C07.permute_keeps_rest", "NV.C07.sortIdx_isPerm",
-                "NV.C07.resort_slot_entry", "NV.C07.inversePerm_getElem", "NV.C07.built_fio_sorted",
+                "NV.C07.resort_slot_entry", "NV.C07.inversePerm_getElem", "NV.C07.built_fio_sorted", "NV.C07.built_indices_in_range",
                 "NV.C07.cmp_literals_are_source", "NV.C07.resort_sorted", "NV.C07.sortIdx_pairwise",
-                "NV.C07.setupVariables_length", "NV.C07.setupVariables_get", "NV.C07.setupVariables_is_spec"]
+                "NV.C07.setupVariables_length", "NV.C07.setupVariables_get", "NV.C07.setupVariables_is_spec",
+                "NV.C07.every_frame_sees_its_own_block", "NV.C07.calleeOf_entered", "NV.C07.applyLow_call_is_find",
+                "NV.C07.applyLow_invId", "NV.C07.findFunction_reuse", "NV.C07.invId_reuse", "NV.C07.cache_transparent_across_reuse"]
     witness_theorems = ["NV.C07.Witness.old_cache_not_transparent", "NV.C07.Witness.origin_stored_once_runs_static",
                         "NV.C07.Witness.old_compress_overflow_branch_loses_entries",
-                        "NV.C07.Witness.temp_instead_of_inverse_misdispatches"]
+                        "NV.C07.Witness.temp_instead_of_inverse_misdispatches",
+                        "NV.C07.Witness.no_id_test_answers_from_a_freed_program"]
     consts = [("applyCacheBits", "APPLY_CACHE_BITS"),
               ("nameInherited", "NAME_INHERITED"), ("nameUndefined", "NAME_UNDEFINED"),
               ("namePrototype", "NAME_PROTOTYPE"), ("nameDefByInherit", "NAME_DEF_BY_INHERIT"),
@@ -456,8 +484,7 @@ class C07(Prop):
               ("originCallOut", "ORIGIN_CALL_OUT"), ("originEfun", "ORIGIN_EFUN"),
               ("originFunctionPointer", "ORIGIN_FUNCTION_POINTER"), ("originFunctional", "ORIGIN_FUNCTIONAL"),
               ("nameMaskC", "NAME_MASK"), ("nameNoCodeC", "NAME_NO_CODE"),
-              ("cmpIndexBytes", "sizeof(((compressed_offset_table_t *)0)->index[0])"),
-              ("fnIndexBytes", "sizeof(function_index_t)")]
+              ("cmpIndexBytes", "sizeof(((compressed_offset_table_t *)0)->index[0])")]
     const_headers = ["lib/efuns/options.h", "lpc/program.h", "lpc/include/origin.h"]
     quick_n = 1200
     thorough_n = 12000
@@ -474,7 +501,9 @@ class C07(Prop):
                   "lib/lpc/program/binaries.c (dispatch by slot unchanged by every permutation, table sorted) and compress_function_tables / "
                   "FIND_FUNC_ENTRY / find_func_entry (every slot read back from the compressed table is the uncompressed entry; "
                   "frames chased through compressed tables equal frames chased through uncompressed ones) for all program tables "
-                  "satisfying decidable well-formedness predicates and all call histories; the predicates (wfFind, wfSlots, cmpWF) "
+                  "satisfying decidable well-formedness predicates and all call histories, incl. histories in which programs are freed and "
+                  "their addresses reused (model only); every frame entered by any call kind has the offsets of its own copy "
+                  "(every_frame_sees_its_own_block); the predicates (wfFind, wfSlots, cmpWF, backrefs) "
                   "are evaluated on every real / model-built table; the compiler's table construction is modelled and compared per "
                   "generated program (translation validation) with the alias-flag and inherit-order theorems proved for all programs")
     level_note = ("trusted: Lean kernel; extract.py and the AST translators in props/c07.py; the harness' table dump (tbl through "
@@ -484,7 +513,9 @@ class C07(Prop):
                   "modelled (tables have < 65536 slots)")
     rule = ("cases = corpus + boundary list + seeded random inheritance graphs (2-7 programs, depth <= 4, up to 3 inherits per "
             "program with private/static/public/protected modifiers, overriding, prototypes before and after inherits, "
-            "`::f` / `A::f` / local calls, function pointers and functionals evaluated in place or by ANOTHER object in bodies) x "
+            "`::f` / `A::f` / local calls, function pointers, functionals `(: f() :)` / `(: ::f() :)` and anonymous functions evaluated in "
+            "place, by ANOTHER object (directly or as map_array / filter_array callbacks), or stored and evaluated later by another "
+            "inherit level, in bodies) x "
             "12-45 calls by name from call_other (shared and copied name string), driver apply, call_out-origin apply and real "
             "call_out, with refused and non-existent names, call_other on ARRAY targets (objects, file names, non-objects; the "
             "function at every position) and on FILE NAME targets (loaded / loaded by the call, running create() in between / no "
@@ -510,8 +541,9 @@ class C07(Prop):
                    "argument count normalisation (setup_variables: too few / exact / too many arguments from call_other, applies, "
                    "function pointers) IS modelled and proved equal to the specification; true varargs functions "
                    "(setup_varargs_variables, `mixed *rest...`), argument TYPES and pointer arguments (merge_arg_lists) are not",
-                   "program deallocation and reuse of a program_t address while a cache entry still names it (the id test of the "
-                   "hit path): cannot be exercised under ASan, whose quarantine never hands the address out again",
+                   "program deallocation and reuse of a program_t address while a cache entry still names it (the id test of the hit "
+                   "path) IS modelled and proved (cache_transparent_across_reuse, witness without the id test) but NOT compared with "
+                   "the real driver: under ASan the quarantine never hands a freed address out again",
                    "find_function_by_name / ffbn_recurse / function_exists (second copy of the search)",
                    "programs loaded from saved binaries: sort_function_table IS modelled (permuteProgram / resortProgram) with "
                    "`permute_slot_entry` / `resort_slot_entry` proved for every permutation, and reloaded programs are compared "
@@ -773,19 +805,24 @@ class C07(Prop):
                     target = fn if rng.chance(4, 5) else rng.choice(fpool)
                     if fnum(target) > fnum(fn):
                         continue
+                    kind = rng.weighted([("S", 6), ("J", 2), ("K", 3), ("M", 3)])
                     if rng.chance(1, 2):
                         if any(resolve(g, q, target) is not None for _, q in inh):
-                            calls.append("S*.%s" % target)
+                            calls.append("%s*.%s" % (kind, target))
                     else:
                         ok = [q for _, q in inh if resolve(g, q, target) is not None]
                         if ok:
-                            calls.append("S%s.%s" % (rng.choice(ok), target))
+                            calls.append("%s%s.%s" % (kind, rng.choice(ok), target))
                 # local calls / function pointers to lower-numbered names the compiler can see
                 for _ in range(rng.weighted([(0, 5), (1, 4), (2, 2)])):
                     lower = [f for f in fpool if fnum(f) < fnum(fn) and f in vis and "hidden" not in vis[f][0]
                              and (vis[f][1] or rng.chance(1, 6))]
                     if lower:
-                        calls.append(rng.weighted([("L", 12), ("F", 3), ("G", 2), ("H", 1), ("I", 2)]) + rng.choice(lower))
+                        calls.append(rng.weighted([("L", 12), ("F", 3), ("G", 2), ("H", 1), ("I", 2), ("O", 1)]) + rng.choice(lower))
+                # evaluate whatever functional this object has stored (made by this or another inherit level, in this or
+                # an earlier call): the evaluating frame's offsets have nothing to do with the creator's
+                if rng.chance(1, 4):
+                    calls.insert(rng.range(0, len(calls)), "N")
                 P.items.append(("d", rng.weighted([("-", 6), ("static", 3), ("private", 2), ("protected", 1), ("public", 1)]), fn, calls))
                 vis = visible_names(g, P.name)
             if rng.chance(1, 8):
@@ -892,7 +929,7 @@ class C07(Prop):
                         if it[0] != "d":
                             continue
                         for x in it[3]:
-                            if x[0] != "S":
+                            if x[0] not in "SJKM":
                                 continue
                             par, fn = x[1:].split(".")
                             for _, q in P.inherits():
@@ -934,10 +971,13 @@ class C07(Prop):
                             h["prototypes"] += 1
                         elif f[0] == "d" and f[3] != "-":
                             for x in f[3].split("+"):
-                                h[{"S": "super_calls", "L": "local_calls", "F": "fp_calls", "G": "fp_calls_evaluated_by_other_object",
-                                   "H": "functional_calls", "I": "functional_calls_evaluated_by_other_object"}[x[0]]] = \
-                                    h.get({"S": "super_calls", "L": "local_calls", "F": "fp_calls", "G": "fp_calls_evaluated_by_other_object",
-                                           "H": "functional_calls", "I": "functional_calls_evaluated_by_other_object"}[x[0]], 0) + 1
+                                kname = {"S": "super_calls", "L": "local_calls", "F": "fp_calls", "G": "fp_calls_evaluated_by_other_object",
+                                         "H": "functional_calls", "I": "functional_calls_evaluated_by_other_object",
+                                         "J": "super_calls_in_functionals",
+                                         "K": "super_calls_in_functionals_evaluated_by_other_object",
+                                         "M": "super_calls_in_stored_functionals", "O": "local_calls_in_stored_functionals",
+                                         "N": "stored_functional_evaluations"}[x[0]]
+                                h[kname] = h.get(kname, 0) + 1
                     if ni > 1:
                         h["multi_inherit_programs"] += 1
             for l in impl.get(c.id, []):
